@@ -238,6 +238,10 @@ func (g *gen) next() Cmd {
 				}
 				cts = t.commit
 			}
+			if r.Intn(3) == 0 {
+				// resolve-lock lite through the RPC handler: only the listed keys of the transaction are resolved
+				return Cmd{Op: "rresolve", Txn: ti, Start: t.start, TS: cts, Keys: pickMine()}
+			}
 			return Cmd{Op: "resolve", Txn: ti, Start: t.start, TS: cts}
 		case x < 81: // batch resolve
 			c := Cmd{Op: "bresolve", Txn: -1}
@@ -385,6 +389,7 @@ func enumAlphabet() []Cmd {
 		{Op: "status", Txn: 1, Start: s1, Prim: "a", TS2: ets(50), Cur: ets(50), Flag: true, Flag2: true},
 		{Op: "rstatus", Txn: 1, Start: s1, Prim: "b", TS2: ets(100000), Cur: ets(100000), Flag: true, Flag2: true, Verify: true},
 		{Op: "rstatus", Txn: 0, Start: s0, Prim: "b", TS2: ets(100000), Cur: ets(100000), Flag: true, Verify: true},
+		{Op: "rresolve", Txn: 0, Start: s0, TS: c0, Keys: []string{"b"}},
 		{Op: "resolve", Txn: 1, Start: s1, TS: 0},
 		{Op: "resolve", Txn: 1, Start: s1, TS: c1},
 		{Op: "bresolve", Txn: -1, Infos: [][2]uint64{{s0, 0}, {s1, c1}}},
@@ -448,7 +453,7 @@ func enforceConstraints(cmds []Cmd) []Cmd {
 			if c.Start <= gcMax {
 				continue
 			}
-		case "commit", "rollback", "cleanup", "status", "rstatus", "resolve":
+		case "commit", "rollback", "cleanup", "status", "rstatus", "resolve", "rresolve":
 			ended[c.Start] = true
 		case "bresolve", "rbresolve":
 			for _, i := range c.Infos {
@@ -670,6 +675,20 @@ func applyMock(m *mocktikv.MVCCLevelDB, rpc *rpcSide, c Cmd) answer {
 			a.data = fmt.Sprint(uint64(e))
 		}
 		return a
+	case "rresolve":
+		req := &kvrpcpb.ResolveLockRequest{StartVersion: c.Start, CommitVersion: c.TS, Keys: bs(c.Keys)}
+		resp, err := rpc.send(tikvrpc.CmdResolveLock, req)
+		if err != nil {
+			return answer{class: "other", data: err.Error()}
+		}
+		r := resp.Resp.(*kvrpcpb.ResolveLockResponse)
+		if r.RegionError != nil {
+			return answer{class: "other", data: fmt.Sprint(r.RegionError)}
+		}
+		if r.Error != nil {
+			return answer{class: "other", data: r.Error.String()}
+		}
+		return answer{ok: true}
 	case "rstatus":
 		req := &kvrpcpb.CheckTxnStatusRequest{PrimaryKey: []byte(c.Prim), LockTs: c.Start, CallerStartTs: c.TS2, CurrentTs: c.Cur,
 			RollbackIfNotExist: c.Flag, ResolvingPessimisticLock: c.Flag2, VerifyIsPrimary: c.Verify}
@@ -915,6 +934,8 @@ func applyRef(s *refkv.Store, c Cmd) answer {
 			return answer{class: "other"}
 		}
 		return answer{ok: true, data: fmt.Sprint(ttl)}
+	case "rresolve":
+		return errAnswer(s.ResolveLock(nil, nil, bs(c.Keys), c.Start, c.TS))
 	case "resolve":
 		return errAnswer(s.ResolveLock(nil, nil, nil, c.Start, c.TS))
 	case "bresolve", "rbresolve":
